@@ -233,6 +233,18 @@ impl World {
         }
     }
 
+    /// Polls only the connection task of raw connection `i` (up to `max` times): what the client
+    /// has sent is forwarded into the broker's queue while the broker itself does not run.
+    pub fn pump_conn(&mut self, i: usize, max: u32) {
+        let t = self.conns[i].task;
+        for _ in 0..max {
+            if !self.exec.is_running(t) || !self.exec.ready().contains(&t) {
+                break;
+            }
+            self.exec.poll_task(t);
+        }
+    }
+
     /// The `Connection::run` future is dropped without being polled again.
     pub fn drop_conn_task(&mut self, i: usize) {
         let c = &mut self.conns[i];
